@@ -57,7 +57,7 @@ const ARGS: &[&str] = &[
 ];
 
 pub fn arg_name(t: &mut Tape, used: &[String]) -> String {
-    for _ in 0..8 {
+    for _ in 0..4 {
         let n = ARGS[t.pick(ARGS.len())].to_string();
         if !used.contains(&n) {
             return n;
